@@ -232,6 +232,6 @@ def hostile_case(draw):
 def parts(ctx):
     return [
         Part("doc-examples", doc_body, items=doc_items, shard=False),
-        Part("ast-spellings", body, strategy=case_strategy(), n={"quick": 700, "thorough": 30000}),
-        Part("any-accepted-label", body, strategy=hostile_case(), n={"quick": 200, "thorough": 5000}),
+        Part("ast-spellings", body, strategy=case_strategy(), n={"quick": 4000, "thorough": 60000}),
+        Part("any-accepted-label", body, strategy=hostile_case(), n={"quick": 600, "thorough": 8000}),
     ]
